@@ -13,9 +13,11 @@ def SameCore (a b : Header) : Prop :=
     a.nextConsensus = b.nextConsensus ∧ a.sre = b.sre ∧ a.prevStateRoot = b.prevStateRoot
 
 /-- collision-freeness of the header hash, as far as this block is concerned: a recorded header
-with the block's hash has the block's hashable fields. A hypothesis, never an axiom. -/
+with the block's hash has the block's hashable fields, and two recorded headers with one hash
+designate the same consensus address. A hypothesis, never an axiom. -/
 def HashBinds (s : Node L) (b : Block) : Prop :=
-  ∀ kh ∈ s.headers, kh.hash = b.hdr.hash → SameCore kh b.hdr
+  (∀ kh ∈ s.headers, kh.hash = b.hdr.hash → SameCore kh b.hdr) ∧
+  (∀ x ∈ s.headers, ∀ y ∈ s.headers, x.hash = y.hash → x.nextConsensus = y.nextConsensus)
 
 /-- the invariant of the node's header chain ahead of its block tip -/
 structure Inv (env : Env L) (s : Node L) : Prop where
@@ -33,10 +35,10 @@ theorem Inv.ne {env : Env L} {s : Node L} (h : Inv env s) : s.headers ≠ [] := 
   simp at this
 
 /-- every transaction of a block that passes the loop with VerifyTransactions was verified on its
-own or has its hash in the mempool -/
+own or is in the mempool with the same witness -/
 theorem txLoop_verified (env : Env L) (s : Node L) (hv : s.cfg.verifyTx = true) (p : List Tx) (ts : List Tx)
     (h : txLoop env s p ts = true) :
-    ∀ t ∈ ts, env.txValid s.ledger s.blockHeight t = true ∨ t.id ∈ s.pool := by
+    ∀ t ∈ ts, env.txValid s.ledger s.blockHeight t = true ∨ pooledSame s t = true := by
   induction ts generalizing p with
   | nil => intro t ht; cases ht
   | cons t rest ih =>
@@ -45,14 +47,16 @@ theorem txLoop_verified (env : Env L) (s : Node L) (hv : s.cfg.verifyTx = true) 
     split at h
     · rename_i p' hp
       rcases List.mem_cons.mp hu with rfl | hu
-      · by_cases hc : s.pool.contains u.id = true
-        · right; simpa using hc
+      · by_cases hc : pooledSame s u = true
+        · right; exact hc
         · left
           simp only [hc] at hp
           by_cases hvld : env.txValid s.ledger s.blockHeight u = true
           · exact hvld
           · simp [hvld] at hp
-      · exact ih p' h u hu
+      · split at h
+        · exact ih p' h u hu
+        · simp at h
     · simp [hv] at h
 
 /-- what the header step guarantees for an accepted block -/
@@ -63,12 +67,10 @@ theorem header_conjuncts (env : Env L) (s s1 : Node L) (b : Block)
     ∃ tip, s.headers[s.blockHeight]? = some tip ∧
       b.hdr.prevHash = tip.hash ∧ tip.ts < b.hdr.ts ∧
       (s.cfg.sr = true → b.hdr.prevStateRoot = env.rootOf s.ledger) ∧
-      ((b.hdr.index = s.headerHeight + 1 ∧ env.signedBy b.hdr.wit b.hdr.hash tip.nextConsensus = true) ∨
-       (b.hdr.index ≤ s.headerHeight ∧ ∃ kh, s.headers[b.hdr.index]? = some kh ∧ kh.hash = b.hdr.hash ∧
-          env.signedBy kh.wit b.hdr.hash tip.nextConsensus = true)) := by
+      env.signedBy b.hdr.wit b.hdr.hash tip.nextConsensus = true := by
   have hne := hinv.ne
   have hlen := headers_length s hne
-  rcases headerStep_spec env s s1 b none hne hs with ⟨_, hr, _⟩ | ⟨_, hi, _, hv⟩ | ⟨_, hni, _, kh, hk, hkh⟩
+  rcases headerStep_spec env s s1 b none hne hs with ⟨_, hr, _⟩ | ⟨_, hi, _, hv⟩ | ⟨_, hni, _, kh, hk, hkh, hw⟩
   · cases hr
   · obtain ⟨last, hl, hv⟩ := hv hskip
     obtain ⟨hm, hlh⟩ := lookup_mem s _ last hl
@@ -76,7 +78,7 @@ theorem header_conjuncts (env : Env L) (s s1 : Node L) (b : Block)
     have hli : last.index = s.blockHeight := by omega
     have hget := Indexed.get _ hinv.indexed last hm
     rw [hli] at hget
-    refine ⟨last, hget, l1, l3, ?_, Or.inl ⟨hi, l4⟩⟩
+    refine ⟨last, hget, l1, l3, ?_, l4⟩
     intro h; exact hsr h hli.symm
   · have hlt : s.blockHeight < s.headers.length := hinv.bh_lt
     obtain ⟨tip, htip⟩ : ∃ tip, s.headers[s.blockHeight]? = some tip :=
@@ -84,21 +86,23 @@ theorem header_conjuncts (env : Env L) (s s1 : Node L) (b : Block)
     have hk' : s.headers[s.blockHeight + 1]? = some kh := by rw [← hbi]; exact hk
     obtain ⟨l1, l2, l3, l4⟩ := hinv.linked s.blockHeight tip kh (Nat.le_refl _) htip hk'
     have hmem : kh ∈ s.headers := List.mem_of_getElem? hk
-    obtain ⟨c1, c2, c3, c4, c5, c6, c7⟩ := hbind kh hmem hkh
-    have hle : b.hdr.index ≤ s.headerHeight := by
-      have : b.hdr.index < s.headers.length := by
-        rcases List.getElem?_eq_some_iff.mp hk with ⟨hlt', _⟩; exact hlt'
-      omega
-    refine ⟨tip, htip, ?_, ?_, ?_, Or.inr ⟨hle, kh, hk, hkh, ?_⟩⟩
+    obtain ⟨c1, c2, c3, c4, c5, c6, c7⟩ := hbind.1 kh hmem hkh
+    refine ⟨tip, htip, ?_, ?_, ?_, ?_⟩
     · rw [← c2]; exact l1
     · rw [← c4]; exact l3
     · intro hsr; rw [← c7]; exact hinv.nextRoot hsr kh hk'
-    · rw [← hkh]; exact l4
+    · rcases hw with hw | hw | ⟨prev, hp, hsg⟩
+      · rw [hskip] at hw; cases hw
+      · rw [← hw, ← hkh]; exact l4
+      · obtain ⟨hpm, hph⟩ := lookup_mem s _ prev hp
+        have : prev.nextConsensus = tip.nextConsensus :=
+          hbind.2 prev hpm tip (List.mem_of_getElem? htip) (by rw [hph, ← c2, l1])
+        rw [← this]; exact hsg
 
 theorem bodyStep_ok (env : Env L) (s s' : Node L) (b : Block) (hskip : s.cfg.skip = false)
     (h : bodyStep env s b = (s', none)) :
-    b.hdr.merkleRoot = env.merkle (b.txs.map (·.id)) ∧ txLoop env s [] b.txs = true ∧
-      storeBlock env s b = (s', none) := by
+    b.hdr.merkleRoot = env.merkle (b.txs.map (·.id)) ∧ hasDup (b.txs.map (·.id)) = false ∧
+      txLoop env s [] b.txs = true ∧ storeBlock env s b = (s', none) := by
   unfold bodyStep at h
   split at h
   · cases h
@@ -106,10 +110,11 @@ theorem bodyStep_ok (env : Env L) (s s' : Node L) (b : Block) (hskip : s.cfg.ski
     split at h
     · cases h
     · rename_i h2
-      simp [hskip] at h1 h2
-      exact ⟨h1, h2, h⟩
-
-
+      split at h
+      · cases h
+      · rename_i h3
+        simp [hskip] at h1 h2 h3
+        exact ⟨h1, h2, h3, h⟩
 
 theorem inv_append (env : Env L) (s : Node L) (hinv : Inv env s) (h last : Header)
     (hidx : h.index = s.headers.length)
@@ -270,20 +275,20 @@ theorem inv_addBlock_aux (env : Env L) (s s' : Node L) (b : Block) (r : Option E
     -- the recorded header at the block's index has the block's hash and hashable fields
     have hkh : ∃ kh, s1.headers[b.hdr.index]? = some kh ∧ kh.hash = b.hdr.hash ∧ SameCore kh b.hdr ∧
         s1.blockHeight = s.blockHeight ∧ s1.cfg = s.cfg := by
-      rcases headerStep_spec env s s1 b none hne hs1 with ⟨_, hr, _⟩ | ⟨_, hi, rfl, _⟩ | ⟨_, _, rfl, kh, hk, hh⟩
+      rcases headerStep_spec env s s1 b none hne hs1 with ⟨_, hr, _⟩ | ⟨_, hi, rfl, _⟩ | ⟨_, _, rfl, kh, hk, hh, _⟩
       · cases hr
       · refine ⟨b.hdr, ?_, rfl, SameCore.rfl' _, rfl, rfl⟩
         show (s.headers ++ [b.hdr])[b.hdr.index]? = some b.hdr
         rw [hi, ← hlen]; simp
-      · exact ⟨kh, hk, hh, hbind kh (List.mem_of_getElem? hk) hh, rfl, rfl⟩
+      · exact ⟨kh, hk, hh, hbind.1 kh (List.mem_of_getElem? hk) hh, rfl, rfl⟩
     obtain ⟨kh, hk, hh, hc, hb1, hc1⟩ := hkh
     have hskip1 : s1.cfg.skip = false := by rw [hc1]; exact hskip
-    obtain ⟨_, _, hst⟩ := bodyStep_ok env s1 s' b hskip1 hbody
+    obtain ⟨_, _, _, hst⟩ := bodyStep_ok env s1 s' b hskip1 hbody
     obtain ⟨l', _, hn, rfl⟩ := storeBlock_ok env s1 s' b hst
     exact inv_commit env s1 hinv1 b l' kh (by rw [hb1]; exact hbi) hk hh hc hn
 
 /-- the node right after genesis satisfies the invariant -/
-theorem inv_genesis (env : Env L) (cfg : Cfg) (g : Header) (l : L) (p : List Nat) (hg : g.index = 0) :
+theorem inv_genesis (env : Env L) (cfg : Cfg) (g : Header) (l : L) (p : List Tx) (hg : g.index = 0) :
     Inv env { cfg := cfg, blockHeight := 0, headers := [g], ledger := l, pool := p } := by
   constructor
   · simp
